@@ -114,6 +114,20 @@ Theorem chunking_irrelevant :
 Proof. intros. apply chunking_irrelevant_all. Qed.
 Print Assumptions chunking_irrelevant.
 
+(* decoding is a function of the body alone: in any history of requests decoded one after another by one process (any
+   protocols, any bodies, streams shared or not, the announcement cache handed from one request to the next), request k
+   is answered with rectangular chunks whose rows are exactly the rows of ITS OWN entries -- nothing of requests 1..k-1
+   shows in them; the earlier requests can only influence which time_series rows are announced and where chunk
+   boundaries fall. An implementation with any other memory between requests (a label cache, a reused buffer) departs
+   from the model; the harness decodes histories in one process to find that. *)
+Theorem decode_history_independent :
+  forall fp enc_len CS cache_add threshold flush_limit (cache0 : CS) (reqs : list (N * body)),
+  Forall2 (fun req r => exists cs, r = Done cs /\ Forall chunk_rect cs /\
+                                   rows_of cs = rows_spec fp (fst req) (entries_of (snd req)))
+          reqs (decode_history fp enc_len CS cache_add threshold flush_limit cache0 reqs).
+Proof. intros. apply decode_history_faithful. Qed.
+Print Assumptions decode_history_independent.
+
 (* no body of any of the seven protocols makes the decoding goroutine panic (after the fixes of defects 7, 27, 28
    this needs no side condition: streams without entries, absent OTLP resource/scope/value are all decoded) *)
 Theorem decode_total_on_wellformed :
